@@ -44,6 +44,8 @@ def main():
                 r['invalid'] = True; out['files'].append(r); continue
             r['ast'] = [lint(lambda: Checker(tree=ast.parse(f['src']))) for _ in range(2)]
             r['astroid'] = [lint(lambda: Checker.from_path(Path(p))) for _ in range(2)]
+            # flake8 with --stdin-display-name: the tree of a file that is not on the disk under that name
+            r['display_name'] = lint(lambda: Checker(filename=os.path.join(d, 'no_such_dir', f['name']), tree=ast.parse(f['src'])))
             r['as_cli'] = lint(lambda: Checker(filename=p, tree=ast.parse(f['src'])))      # how the lint command builds its checker: no tokens, hence no noqa filter
             try:
                 with contextlib.redirect_stdout(io.StringIO()):
@@ -68,9 +70,9 @@ def main():
         if job.get('cli'):
             env = dict(os.environ, PYTHONPATH=os.environ.get('PYTHONPATH', ''))
             # the documented entry points: `python -m deal lint` (JSON and plain) and its alias `python -m deal.linter`
-            for mode, flags in (('json', ['deal', 'lint', '--json']), ('plain', ['deal', 'lint', '--nocolor']), ('alias', ['deal.linter', '--nocolor'])):
+            for mode, flags in (('json', ['deal', 'lint', '--json']), ('plain', ['deal', 'lint', '--nocolor']), ('alias', ['deal.linter', '--nocolor']), ('json1', ['deal', 'lint', '--json'])):
                 # findings do not depend on the hash seed of the process: the alias runs under another one
-                if mode == 'alias': env = dict(env, PYTHONHASHSEED='1')
+                if mode in ('alias', 'json1'): env = dict(env, PYTHONHASHSEED='1')
                 p = subprocess.run([sys.executable, '-m'] + flags + [d], stdout=subprocess.PIPE, stderr=subprocess.PIPE, text=True, env=env, cwd=d, timeout=1200)
                 out[mode] = {'status': p.returncode, 'stdout': p.stdout, 'stderr': p.stderr[-1500:]}
     finally:
